@@ -10,6 +10,7 @@ mod t1;
 mod t12c;
 mod t15;
 mod t16;
+mod t6;
 mod t17;
 mod t19;
 mod t3;
